@@ -10,7 +10,7 @@ import itertools
 import numpy as np
 
 from checks import specgen as SG
-from checks.common import hash_tag, relayout, xf_build, xf_names
+from checks.common import hash_tag, relayout, xf_build, xf_names, canonical_probes
 from qmc import gen as G
 from qmc import oracle as O
 from qmc.loader import load
@@ -88,6 +88,10 @@ def cases(tier, seed):
             out.append({"key": f"full/{sname}/{m}x{n}", "entry": "classical_qsvd_full", "m": m, "n": n, "vals": vals_, "kU": "hh", "kV": "hh", "row": 0, "R": None})
             for R in range(1, p_ + 1):
                 out.append({"key": f"trunc/{sname}/{m}x{n}/R={R}", "entry": "classical_qsvd", "m": m, "n": n, "vals": vals_, "kU": "hh", "kV": "hh", "row": 0, "R": R})
+    # rectangular inputs whose column (row) space contains a canonical fixed probe vector: first column = probe (tall), first row = probe^H (wide)
+    for (m, n) in ((4, 3), (6, 5), (3, 4), (5, 6), (5, 3), (3, 5)):
+        for pi_ in range(16):
+            out.append({"key": f"full/probe/{m}x{n}/p={pi_}", "entry": "classical_qsvd_full", "m": m, "n": n, "vals": None, "kU": "mask", "kV": "mask", "row": 0, "R": None, "probe": pi_})
     # enumerated list of larger shapes, simple spectra
     for (m, n) in ((9, 7), (7, 9), (12, 12), (17, 5), (5, 17), (33, 2), (2, 33)):
         p = min(m, n)
@@ -103,8 +107,15 @@ def run_case(case, seed):
     m, n, vals, R = case["m"], case["n"], case["vals"], case["R"]
     p = min(m, n)
     fill = G.Fill(seed + 31 * case["row"], stream=hash_tag(f"{m}x{n}/{case['kU']}/{case['row']}"))
-    if case.get("mask") or case.get("xf"):
-        if case.get("xf"):
+    if case.get("mask") or case.get("xf") or case.get("probe") is not None:
+        if case.get("probe") is not None:
+            A = fill.quat(m, n, bits=4, lo=-24, hi=24)
+            pname, g = canonical_probes(max(m, n))[case["probe"]]
+            if m > n:
+                A[:, 0:1] = g
+            else:
+                A[0:1, :] = O.qH(g)
+        elif case.get("xf"):
             A, lay_ = xf_build(case["xf"], m, n, fill)
             case = dict(case, lay=lay_)
         else:
